@@ -90,8 +90,17 @@ def parse_verus(stdout, stderr):
             continue
         if d.get('message', '').startswith('aborting due to'):
             continue
-        spans = [{'line': s['line_start'], 'line_end': s['line_end'], 'label': s.get('label'), 'primary': s['is_primary'],
-                  'file': s['file_name']} for s in d.get('spans', [])]
+        spans = []
+        for s in d.get('spans', []):
+            spans.append({'line': s['line_start'], 'line_end': s['line_end'], 'label': s.get('label'), 'primary': s['is_primary'],
+                          'file': s['file_name']})
+            e = s.get('expansion')
+            while e:  # a failure inside a macro stand-in (quote!/panic!/format!): report the call site in the unit as well
+                cs = e.get('span') or {}
+                if cs:
+                    spans.append({'line': cs['line_start'], 'line_end': cs['line_end'], 'label': 'in expansion of ' + str(e.get('macro_decl_name')),
+                                  'primary': False, 'file': cs['file_name']})
+                e = cs.get('expansion')
         for ch in d.get('children', []):
             for s in ch.get('spans', []):
                 spans.append({'line': s['line_start'], 'line_end': s['line_end'], 'label': ch.get('message'), 'primary': False,
@@ -292,15 +301,16 @@ def run_unit(unit_path, prop, tier, seed):
                         labels.append('%s.%s' % (m.group(1), m.group(2)))
             if 1 <= s['line'] <= len(gen_lines):
                 texts_.append('%d: %s%s' % (s['line'], gen_lines[s['line'] - 1].strip()[:160], (' <- ' + s['label']) if s.get('label') else ''))
+        # a labelled clause belongs to the properties its labels name; an unlabelled failure (overflow, callee
+        # precondition, proof hint) belongs to the properties of the function it occurs in
         props = set(l.split('.')[0] for l in labels)
-        for b in blocks:
-            props.update(block_props.get(b) or [])
+        if not props:
+            for b in blocks:
+                props.update(block_props.get(b) or [])
         fail = {'message': d['message'], 'blocks': blocks, 'labels': sorted(set(labels)), 'where': texts_, 'props': sorted(props),
                 'in_real_function': bool(blocks)}
         u['failures'].append(fail)
-    u['obligations'] = u['verified'] + u['errors'] + len(u['labels'])
-    failed_labels = set(l for f in u['failures'] for l in f['labels'] if l.startswith(prop + '.'))
-    u['discharged'] = u['verified'] + len([l for l in u['labels'] if l['label'] not in failed_labels])
+    u['fn_obligations'] = u['verified'] + u['errors']
     # vacuity probes
     try:
         ptext, plines, pnames = make_probe(rep)
@@ -411,8 +421,15 @@ def main():
         for ud in undecided:
             lines.append('UNDECIDED property=%s reason=%s unit=%s %s' % (prop, ud['reason'], ud.get('unit'), ud.get('detail', '')[:300]))
     # evidence
-    obligations = sum(u['obligations'] for u in results) + extras.get('obligations', 0)
-    discharged = sum(u['discharged'] for u in results) + extras.get('discharged', 0)
+    known_labels = set(k['finding']['label'] for k in known_hits)
+    viol_labels = set(v['label'] for v in violations)
+    viol_fns = set(b for v in violations for b in (v.get('failure') or {}).get('blocks', []))
+    label_obl = [l for u in results for l in u['labels'] if l['label'] not in known_labels]
+    fn_obl = sum(u.get('fn_obligations', 0) for u in results)
+    obligations = fn_obl + len(label_obl) + extras.get('obligations', 0)
+    discharged = obligations - len(viol_fns) - len([l for l in label_obl if l['label'] in viol_labels]) - (extras.get('obligations', 0) - extras.get('discharged', 0))
+    if undecided and not violations:
+        discharged = min(discharged, obligations - 1) if obligations else 0
     samples = []
     for u in results:
         for l in u['labels'][:6]:
@@ -428,7 +445,8 @@ def main():
             if b['kind'] == 'fn':
                 fn_under_contract.append({'function': b['name'], 'unit': u['unit'], 'repo_line': b['repo_line'], 'source_sha256': b['sha256'],
                                           'text_changed_since_annotation': b['changed'], 'insertions': b['insertions'],
-                                          'replacements': b['replacements'], 'unclassified_insertions': b['unclassified_insertions']})
+                                          'replacements': b['replacements'], 'unclassified_insertions': b['unclassified_insertions'],
+                                          'normalisations': b.get('normalisations', [])})
     ev = {
         'property_id': prop, 'tier': tier, 'seed': seed, 'level': 'proof',
         'coverage': {
@@ -443,6 +461,7 @@ def main():
             'back_end': 'verus 0.2026.09.13 / z3 (bundled)' + extras.get('back_end', ''),
             'extras': extras.get('report', {}),
             'known_findings': [k['finding'] for k in known_hits],
+            'known_finding_obligations_excluded': sorted(known_labels),
             'undecided': undecided,
             'explanation': 'obligations = Verus function-level verification conditions (one per function/lemma incl. all its requires/ensures/invariant/'
                            'decreases/overflow/callee-precondition checks) + labelled contract clauses of this property; all counted from this run',
